@@ -5,6 +5,8 @@ from . import analysis as A
 from . import roles
 from .c04 import role_get, role_run_fn, _reaches_block
 from .c07 import drain_invocations
+from . import sched as S
+from . import deep as D
 from .mir import Site, Unverifiable, callee_is, callee_path, const_int, op_fn, op_local, op_place, place_fields, place_str
 
 CFGS = {"quick": ["default", "all"], "thorough": ["default", "all", "nodefault", "tracing"]}
@@ -199,81 +201,64 @@ def r3(F, R):
                         "with zero free slots GET still reaches the queues")
     if not eqs:
         R.violation("zero-slots-empty-batch", get, "GET has no `== Some(0)` short-circuit")
-    # the drain predicate
-    preds = []
-    for b in F.nested(get):
-        for s, t in b.calls(lambda t: callee_is(t, r"drain_filter$", r"extract_if$", r"retain$")):
-            kb = A.closure_of_operand(F, b, t["args"][-1])
-            if kb is not None:
-                preds.append((b, s, t, kb))
-    R.check(len(preds) == 1, "drain-predicate/found", get, "", f"{len(preds)} drain predicates in GET")
-    if len(preds) != 1:
-        return
-    b, s, t, kb = preds[0]
-    paths = A.enumerate_paths(kb)
-    # limit test: first decision; true edge -> return false
-    lim = [(p, p.decisions[0]) for p in paths if p.decisions]
-    limit_atoms = {d[0] for _, d in lim}
-    R.check(len(limit_atoms) == 1 and re.search(r"Option::is_some\(&?.*\)|is_some_and", list(limit_atoms)[0] if limit_atoms else ""), "drain-predicate/limit-test", kb,
-            f"limit test: {sorted(limit_atoms)}", f"the drain predicate does not start with the limit test: {sorted(limit_atoms)}")
-    for p in paths:
-        if p.decisions and p.decisions[0][1] == "true":
-            R.check(p.ret is False, "drain-predicate/full-keeps", kb, "limit reached -> entry kept", f"limit reached yet the predicate returns {p.ret}")
-    # the limit closure: i >= *c
-    filt = [(s2, t2) for s2, t2 in kb.calls(lambda t2: callee_is(t2, r"Option::<.*>::filter$", r"Option::<.*>::is_some_and$"))]
-    okk = False
-    i_base = None
-    if len(filt) == 1:
-        k2 = A.closure_of_operand(F, kb, filt[0][1]["args"][1])
-        if k2 is not None:
-            sd = k2.single_def(0)
-            if sd and sd[1] == "assign" and sd[2]["rv"]["k"] == "bin":
-                rv = sd[2]["rv"]
-                a, bb_ = A.describe_operand(k2, rv["a"]), A.describe_operand(k2, rv["b"])
-                # canonical: taken >= limit   (taken is a capture, limit the closure parameter)
-                if rv["op"] == "Ge" and a.startswith("^") and not bb_.startswith("^"):
-                    okk = True
-                    i_base = a
-                elif rv["op"] == "Le" and bb_.startswith("^") and not a.startswith("^"):
-                    okk = True
-                    i_base = bb_
-                else:
-                    R.violation("drain-predicate/limit-comparison", k2, f"limit comparison is {rv['op']}({a},{bb_}); expected taken >= limit")
-        recv = A.deep_slice(F, kb, [filt[0][1]["args"][0]])
-    if okk:
-        R.ok("drain-predicate/limit-comparison", kb, "taken >= limit")
-    elif len(filt) != 1:
-        R.violation("drain-predicate/limit-comparison", kb, "no `count.filter(|c| taken >= *c)` test found")
-    # the take closure (None arm of map_or_else): taken += 1; true
-    moe = [(s2, t2) for s2, t2 in kb.calls(lambda t2: callee_is(t2, r"Option::<.*>::map_or_else$"))]
-    if len(moe) == 1:
-        kn = A.closure_of_operand(F, kb, moe[0][1]["args"][1])
-        if kn is not None:
-            incs = [(s3, st) for s3, st in kn.assigns(lambda st: st["rv"]["k"] == "bin" and st["rv"]["op"] in ("AddWithOverflow", "Add"))]
-            ok_inc = len(incs) == 1 and const_int(incs[0][1]["rv"]["b"]) == 1
-            R.check(ok_inc, "drain-predicate/take-increments-by-one", kn, "taken += 1 per drained entry", "a drained entry does not increment `taken` by exactly 1")
-            # same variable as in the limit test
-            if ok_inc and i_base:
-                nm = A.describe_operand(kn, incs[0][1]["rv"]["a"])
-                R.check(nm.split(".")[0] == i_base.split(".")[0], "drain-predicate/same-counter", kn, f"{nm}", f"the limit test reads {i_base} but the take increments {nm}")
+    # the drain predicate, as a path table (independent of combinator / match spelling; see deep.py, sched.py)
+    PT = S.PredTable(F)
+    kb = PT.pred
+    R.ok("drain-predicate/found", kb, "closure passed to the drain primitive")
+    counters = set()
+    for p in PT.true_paths:
+        cw = PT.counter_writes(p)
+        R.check(len(cw) == 1, "drain-predicate/take-increments-by-one", kb, "taken += 1 per drained entry",
+                f"a path that drains an entry performs {len(cw)} increments-by-one of the taken counter")
+        counters.update(cw)
+    if len(counters) != 1:
+        R.violation("drain-predicate/same-counter", kb, f"{len(counters)} different counters are incremented by the drained paths")
+        counter = None
+    else:
+        counter = next(iter(counters))
+        R.ok("drain-predicate/same-counter", kb, D.fmt_place(kb, counter))
+    if counter is not None:
+        for p in PT.false_paths:
+            R.check(not PT.counter_writes(p), "drain-predicate/kept-does-not-count", kb, "kept entries are not counted", "a kept entry increments the taken counter")
+        opts = PT.limit_option(counter)
+        R.check(len(opts) == 1, "drain-predicate/limit-comparison", kb, "taken is compared with the limit's payload",
+                f"the taken counter is compared with {len(opts)} limit options (expected: one `taken >= limit` test)")
+        lim = next(iter(opts)) if len(opts) == 1 else None
+        for p in PT.paths:
+            lo = PT.limit_outcome(p, counter)
+            if lo and lo.startswith("odd"):
+                R.violation("drain-predicate/limit-comparison", kb, f"the limit comparison is {lo[4:]}; expected taken >= limit")
+            if lo == "reached":
+                R.check(p in PT.false_paths and not [e for e in p.effects if e[0] == "write"], "drain-predicate/full-keeps", kb, "limit reached -> entry kept, nothing recorded",
+                        "with the limit reached the predicate still drains the entry (or has side effects)")
+        if lim is not None:
+            for p in PT.true_paths:
+                lo = PT.limit_outcome(p, counter)
+                unlimited = any(atom == ("discr", lim) and out == "None" for atom, out in p.conds)
+                R.check(lo == "free" or unlimited, "drain-predicate/limit-test", kb, "every drained entry passed `taken < limit` (or there is no limit)",
+                        "an entry can be drained without the limit having been tested")
+            # the limit option is the drain routine's count parameter (captured)
+            R.check(D.mentions(lim, lambda x: x[0] == "field" and x[1] in (("arg", 1), ("deref", ("arg", 1)))), "drain-predicate/limit-is-captured-count", kb,
+                    f"limit = {D.fmt(kb, lim)}", "the limit the predicate tests is not the captured count")
     # fall-through: when the Serial drain hands out nothing, the Concurrent queue is still drained
-    inv = drain_invocations(F, get)
-    ser = [x for x in inv if x[3] == "Serial"]
-    con = [x for x in inv if x[3] == "Concurrent"]
+    GT = S.GetTable(F)
     fall = False
-    if len(ser) == 1 and len(con) == 1:
-        for s2, t2 in get.calls(lambda t2: callee_is(t2, r"Option::<.*>::or_else$", r"Option::<.*>::or$")):
-            r_cl = A.closure_of_operand(F, get, t2["args"][0])
-            rsl = A.slice_back(get, [t2["args"][0]])
-            r_cls = [F.body(rv["def"]) for _, rv in rsl.aggs if rv.get("agg") == "closure"]
-            a_cl = A.closure_of_operand(F, get, t2["args"][1])
-            in_recv = any(ser[0][0] in F.nested(c) for c in r_cls if c is not None)
-            in_arg = a_cl is not None and con[0][0] in F.nested(a_cl)
-            if in_recv and in_arg:
+    bad = None
+    for p in GT.paths:
+        ds = GT.drains(p)
+        ser = [d for d in ds if d[1] == "Serial"]
+        con = [d for d in ds if d[1] == "Concurrent"]
+        if ser and GT.outcome_of(p, ser[0][3]) == "None":
+            # the serial drain produced nothing: the concurrent queue must be consulted
+            looked = any(e[0] == "call" and re.search(r"HashMap::<.*>::get(_mut)?$|HashMap::get(_mut)?$", e[1]) and
+                         any(D.is_variant(x, "runner::basic::ScenarioType", "Concurrent") for a in e[2] for x in D.subterms(a))
+                         for e in p.effects[ser[0][0]:])
+            if con:
                 fall = True
-        if ser[0][0] is con[0][0]:
-            # sequential form in one body: the concurrent drain is reachable when the serial one produced nothing
-            fall = fall or ser[0][0].site_reaches(ser[0][1], con[0][1])
+            elif not looked:
+                bad = p
+    con = [(get, Site(get, 0, 0))]
+    fall = fall and bad is None
     R.check(fall, "concurrent-fallback", con[0][1] if con else get, "serial.or_else(concurrent): free slots are filled with concurrent scenarios when no serial one can start",
             "when the Serial queue yields nothing (nothing ready / something in flight) GET does not fall through to the Concurrent queue: free slots stay empty")
     R.floor(7)
